@@ -159,6 +159,15 @@ fn parsed_case(ctx: &Ctx, ch: &mut Ch) -> Outcome {
     if excluded > 0 {
         ctx.class_n("excluded by construction: implicit pi with unused parameter made explicit (recorded finding)", excluded as u64);
     }
+    // A sixth of the programs with a group of two or more definitions have the tail of one such
+    // group in parentheses (`x = a; (y = b; body)`): whatever term the parser makes of that, its
+    // printed form has to read back as the same term.
+    if ch.chance(1, 6) {
+        if let Some(t) = crate::gens::mutate::paren_group_tail(&s, ch) {
+            s = t;
+            ctx.class("source with the tail of a group in parentheses");
+        }
+    }
     let toks = sast::print_tokens(&s);
     let (text, ranges) = tok::render_plain(&toks);
     let gt = tok::to_gram(&text, &toks, &ranges);
